@@ -109,6 +109,10 @@ pub fn replay(kind: &str, case: &Value) -> Result<(), String> {
             }
             Ok(())
         }
+        "render" => {
+            let (y, o): (i32, i32) = serde_json::from_value(case.clone()).map_err(|e| e.to_string())?;
+            render_extreme(y, o)
+        }
         "zone" => {
             let z: crate::model::MZone = serde_json::from_value(case.clone()).map_err(|e| e.to_string())?;
             exercise_model_zone(&z)
@@ -127,6 +131,24 @@ pub fn replay_raw(path: &str) -> Result<(), String> {
     let target = fuzz_entry::TARGETS.iter().find(|t| name.starts_with(*t)).ok_or_else(|| format!("cannot tell the fuzz target from the file name {name}"))?;
     let bytes = std::fs::read(path).map_err(|e| e.to_string())?;
     fuzz_entry::run_target(target, &bytes)
+}
+
+fn render_extreme(y: i32, o: i32) -> Result<(), String> {
+    use std::fmt::Write as _;
+    let ltt = tz::LocalTimeType::with_ut_offset(o).map_err(|e| format!("{e:?}"))?;
+    for (mo, d, h, mi, s) in [(1u8, 1u8, 0u8, 0u8, 0u8), (12, 31, 23, 59, 60), (6, 15, 12, 30, 30)] {
+        if let Ok(dt) = tz::DateTime::new(y, mo, d, h, mi, s, 999_999_999, ltt) {
+            let mut text = String::new();
+            let _ = write!(text, "{dt}|{dt:>64}|{dt:<3}|{dt:.5}|{dt:^70.80}|{dt:?}");
+            if text.len() < 40 {
+                return Err(format!("rendering of year {y} offset {o} is implausibly short: {text:?}"));
+            }
+        }
+        if let Ok(u) = tz::UtcDateTime::new(y, mo, d, h, mi, s.min(59), 1) {
+            let _ = format!("{u}|{u:>64}|{u:.3}|{u:?}");
+        }
+    }
+    Ok(())
 }
 
 fn exercise_model_zone(z: &crate::model::MZone) -> Result<(), String> {
@@ -315,6 +337,28 @@ pub fn run(ctx: &Ctx) -> Outcome {
                         st.eval(1);
                         st.nontrivial_exact(1);
                         exercise_model_zone(z)
+                    })?;
+                }
+            }
+            Ok(())
+        });
+        out.absorb_all(rs);
+        if out.failure.is_some() {
+            return out;
+        }
+    }
+    // renderings at the extremes of year and offset (the longest texts the formatter can produce), with and without format specs
+    {
+        let rs = par_shards(1, |_, st| {
+            let years = [i32::MIN, i32::MIN + 1, -2_000_000_000, -1_000_000_000, -999_999_999, -1, 0, 9999, 10_000, 1_000_000_000, i32::MAX];
+            let offs = [i32::MAX, -i32::MAX, i32::MAX - 7, -(i32::MAX - 7), 360_000_000, 359_999_999, -359_999_999, 86_399, -86_399, 59, -59, 0];
+            for &y in &years {
+                for &o in &offs {
+                    let c = (y, o);
+                    check_enum("render", &c, st, |&(y, o), st| {
+                        st.eval(1);
+                        st.nontrivial_exact(1);
+                        render_extreme(y, o)
                     })?;
                 }
             }
